@@ -457,6 +457,15 @@ def fam_k12(inp):
                                      out=[], out_exc=exc, offers=[], hist=[len(s) for s in segs], via_data=via_data, proj=proj,
                                      variant="pinned", cost=1, note=note, clen=len(custom)))
 
+    # explicit histories requested by the orchestrator (judged by value, API-only: the private fields are not part of these records)
+    if inp.get("k12_explicit"):
+        TID[0] = int(inp.get("tid0", 0))
+        for x in inp["k12_explicit"]:
+            n0 = len(RECORDS)
+            record(rb(r, x["clen"]), [rb(r, n) for n in x["hist"]], bool(x.get("via_data")), 32, True, note="re-recorded by value: " + x.get("note", ""))
+            for rec in RECORDS[n0:]:
+                rec["proj"] = []
+        return proj_records
     # (a) short inputs: message lengths around the rate, customization 0, 1, 255, 256, 300 bytes
     for m, c, o in [(0, 0, 32), (1, 0, 1), (166, 0, 32), (167, 0, 64), (168, 0, 169), (17, 1, 32), (0, 255, 32), (1, 256, 32), (100, 300, 337), (335, 0, 32), (3, 2, 0)]:
         record(rb(r, c), [rb(r, m)] if m or r.random() < 0.5 else [], r.random() < 0.5, o, True)
